@@ -3,14 +3,12 @@ package main
 import (
 	"fmt"
 
-	hcl "Havoc/pkg/profile/yaotl"
 	"Havoc/pkg/profile/yaotl/hclwrite"
 )
 
 func main() {
-	for _, src := range []string{"a   =   1\n", "a =\t1\n", "b   =\t[1,\n 2]\n", "blk \"x\"   {\n    b=1\n}\n", "a = 1 # c\n\n\n# d\n", "a=<<EOT\n  x\nEOT\n", "a = 1", "\ta = 1\n", "a = \"x${ 1 +\t2 }\"\n", "a = 1 /* x */ \n  \n", "a = 1\r\nb = 2\r\n"} {
-		f, _ := hclwrite.ParseConfig([]byte(src), "x.hcl", hcl.Pos{Line: 1, Column: 1})
-		raw := f.BuildTokens(nil).Bytes()
-		fmt.Printf("%q -> raw %q  same=%v  fmt==Bytes:%v\n", src, raw, string(raw) == src, string(hclwrite.Format([]byte(src))) == string(f.Bytes()))
+	for _, src := range []string{"name=   \"q\\\"\\\\ é\"\n", "name = \"é\"\n", "name = \"\\\\ é\"\n", "name = \"\\\\é\"\n", "name = \"a\\\\ b\"\n"} {
+		out := hclwrite.Format([]byte(src))
+		fmt.Printf("%q -> %q\n", src, out)
 	}
 }
